@@ -249,13 +249,18 @@ def evaluate(ctx, cases):
         if not isinstance(ref[0], dict) and ctx.rng.random() < (0.3 if ctx.tier == "quick" else 1.0):
             import asyncio
 
+            from .C08 import wrap      # containers whose asynchronous item getter really suspends
+
+            def susp(d):
+                return wrap(copy.deepcopy(d)) if isinstance(d, (dict, list)) else d
+
             async def one(i):
                 await asyncio.sleep(0)
-                return [[m.path, core.canon(m.obj)] async for m in await qon.finditer_async(docs[i % len(docs)], filter_context=extra)]
+                return [[m.path, core.canon(m.obj)] async for m in await qon.finditer_async(susp(docs[i % len(docs)]) if i % 2 else docs[i % len(docs)], filter_context=extra)]
 
             async def allv(i):
                 await asyncio.sleep(0)
-                return await qon.findall_async(docs[i % len(docs)], filter_context=extra)
+                return await qon.findall_async(susp(docs[i % len(docs)]), filter_context=extra)
 
             async def main():
                 return await asyncio.gather(*[one(i) for i in range(6)], *[allv(i) for i in range(3)])
